@@ -543,6 +543,50 @@ func runC20(c *Ctx) {
 					}
 				}
 			}
+			// 3c. a callback that itself clears another carrier (cascading clean-up): the reports of the outer clear are
+			// still those of the outer clear
+			if oc, ok := mkCarrier(kind, init, markers).(clearer); ok && mask%4 == 1 {
+				for fi, fam := range []string{"number", "string", "array"} {
+					outer := mkCarrier(kind, init, markers)
+					oc = outer.(clearer)
+					inner, _ := mkCarrier(kind, mkSV((1<<15)-1, (variant+3)%6), markers).(clearer)
+					exp := expectedRemoved(restrict(kind, init), fam)
+					got := map[string]interface{}{}
+					nested := false
+					cb := func(kw string, v interface{}) {
+						got[kw] = v
+						if !nested && inner != nil {
+							nested = true
+							sink := func(string, interface{}) {}
+							switch (fi + 1) % 3 {
+							case 0:
+								inner.ClearNumberValidations(sink, sink)
+							case 1:
+								inner.ClearStringValidations(sink, sink)
+							default:
+								inner.ClearArrayValidations(sink, sink)
+							}
+						}
+					}
+					switch fam {
+					case "number":
+						oc.ClearNumberValidations(cb)
+					case "string":
+						oc.ClearStringValidations(cb)
+					default:
+						oc.ClearArrayValidations(cb)
+					}
+					if len(got) != len(exp) {
+						fail("clear-trace-reentrant", fmt.Sprintf("clear %s whose callback clears another carrier reported %v, want %v", fam, got, exp))
+						continue
+					}
+					for kw, pv := range exp {
+						if gv, in := got[kw]; !in || !reflect.DeepEqual(pv, gv) {
+							fail("clear-trace-reentrant", fmt.Sprintf("clear %s whose callback clears another carrier reported %q = %v, previous value was %v", fam, kw, gv, pv))
+						}
+					}
+				}
+			}
 			// 4. clears, in one of the 24 orders, two callbacks
 			z := mkCarrier(kind, init, markers)
 			cur := restrict(kind, init)
